@@ -16,58 +16,69 @@ JOBS = []
 # carquet_read_next_page, one job per physical type (value size is a constant per job, except FLBA)
 for t, tn in TYPES:
     j = dict(name='c02_next_page_%s' % tn, entry='h_next_page', enforce='carquet_read_next_page', replace=['load_next_page'],
-             min_loop_obligations=2, wip=True, est_s=30, timeout=300, defines=['CQV_TYPE=%d' % t],
-             note='ok on the unchanged tree (2165 obligations). On deliberately broken copies cbmc finds the failing obligation, '
-                  'but the driver reports undecided (rc=6): the json trace of symbolic-size malloc objects / havoc_slice runs out '
-                  'of memory, so no VIOLATION line can be shown -> left wip; the c02_next_page_small_* twins are the validated ones', **NP)
-    if tn == 'int96':      # x12 is not a shift: minisat does not finish in 300 s, cadical needs about 60 s
-        j.update(backend=['cadical', 'sat'], timeout=600, est_s=70)
+             min_loop_obligations=2, wip=False, est_s=70, timeout=600, defines=['CQV_TYPE=%d' % t], **NP)
+    if tn == 'int96':      # x12 is not a shift: cadical is much faster than minisat here
+        j.update(backend=['cadical', 'sat'], timeout=900, est_s=180)
     if tn == 'flba':       # value size is the symbolic type_length: product of two variables
-        j.update(backend=['cadical', 'sat'], timeout=900, tier='thorough', est_s=600, level='bounded',
+        j.update(backend=['cadical', 'sat'], timeout=900, tier='thorough', est_s=900, level='bounded', wip=True,
                  bound='FIXED_LEN_BYTE_ARRAY type_length <= 16', defines=['CQV_TYPE=7', 'CQV_TL_MAX=16'],
-                 note='not decided: symbolic type_length timed out at 300 s (minisat); the bounded/cadical variant was never run')
+                 note='UNDECIDED: times out (900 s, cadical and minisat) even with type_length <= 16; see c02_next_page_flba16')
     JOBS.append(j)
+# FIXED_LEN_BYTE_ARRAY with one concrete length per job (16 = UUID / decimal128)
+JOBS.append(dict(name='c02_next_page_flba16', entry='h_next_page', enforce='carquet_read_next_page', replace=['load_next_page'],
+                 min_loop_obligations=2, wip=True, est_s=70, timeout=600, defines=['CQV_TYPE=7', 'CQV_TL_FIX=16'],
+                 level='bounded', bound='FIXED_LEN_BYTE_ARRAY type_length == 16', **NP))
 # same contract with small buffers: a violation here comes with a counterexample the driver can print
 # (json traces of symbolic-size objects exhaust memory); used for the break-the-code validation
 for t, tn in [(1, 'int32'), (2, 'int64')]:
     JOBS.append(dict(name='c02_next_page_small_%s' % tn, entry='h_next_page', enforce='carquet_read_next_page', replace=['load_next_page'],
                      min_loop_obligations=2, wip=False, est_s=20, timeout=300, defines=['CQV_TYPE=%d' % t, 'CQV_SMALL=1'],
                      level='bounded', bound='page_num_values <= 8, max_values <= 8', **NP))
-# the C02 obligation the code violates (dense delivery of nullable values across calls), unbounded form
+# the C02 obligation the code violated before a76a80d (dense delivery of nullable values across calls), exact bounded form + native replayer
 JOBS.append(dict(name='c02_next_page_dense_int32', entry='h_next_page', enforce='carquet_read_next_page', replace=['load_next_page'],
-                 min_loop_obligations=2, wip=True, est_s=30, timeout=300, defines=['CQV_TYPE=1', 'CQV_SMALL=1'],
+                 min_loop_obligations=2, wip=False, est_s=40, timeout=300, defines=['CQV_TYPE=1', 'CQV_SMALL=1'],
                  level='bounded', bound='page_num_values <= 8, max_values <= 8 (keeps the json counterexample small)',
                  replayer=dict(kind='direct', harness='replay/direct/colreader_next_page_dense.c', sources=ALL_SRC,
                                vars={'pnv': 'cex_pnv', 'start': 'cex_start', 'maxv': 'cex_maxv', 'j': 'cex_j', 'defj': 'cex_defj', 'maxdef': 'cex_maxdef'}),
-                 note='FINDING: values of a nullable page read in several calls are taken at row offset, not dense offset '
-                      '(postcondition fails in 12 s with plain cbmc; the driver json-ui trace of symbolic-size malloc objects runs out of memory)', **NP))
+                 note='exact dense-slice statement (spec count unrolled over a page of <= 8 rows); failed before /repo a76a80d, passes since', **NP))
 
-# carquet_column_read_batch / carquet_column_skip (value size constant per job)
+# carquet_column_read_batch / carquet_column_skip (value size constant per job).
+# Their loops re-allocate the reader's page buffers through the callee contract; after the loop-contract
+# havoc those pointers are arbitrary and cbmc cannot carry "pointer is valid" through an invariant
+# (r_ok on a havocked pointer: pointer-primitive check / inconsistent evaluation).  So these loops are
+# UNWOUND (goto-instrument --unwind, paths beyond the bound cut): bounded in the number of pages / chunks
+# per call, unbounded in rows.  The loop contracts stay in the overlay as documentation.
 CR = dict(NP)
 CR['overlays'] = ['contracts/next_page.ovl', 'contracts/column_reader.ovl']
-# the reader's buffer pointers are havocked by the callee contract / loop havoc and then constrained by r_ok
-# assumptions: cbmc's check that every r_ok argument is already a valid pointer cannot hold at that point
-CR['cbmc_flags'] = ['--no-pointer-primitive-check']
-CR['trusted'] = TRUST + ['read_batch/skip jobs run with --no-pointer-primitive-check (r_ok in assumed clauses is evaluated on havocked pointers)']
-for t, tn in [(1, 'int32'), (2, 'int64'), (0, 'boolean'), (6, 'byte_array')]:
-    JOBS.append(dict(name='c02_read_batch_%s' % tn, entry='h_read_batch', enforce='carquet_column_read_batch',
-                     replace=['carquet_read_next_page'], min_loop_obligations=1, wip=True, est_s=60, timeout=300,
-                     level='bounded', bound='values, def_levels, rep_levels all non-NULL; max_values <= INT32_MAX',
-                     note='UNDECIDED (contract debugging unfinished, NOT a finding): loop-invariant preservation, the three buffer '
-                          'postconditions and the loop assigns inclusion of def_levels/rep_levels do not close yet',
-                     defines=['CQV_TYPE=%d' % t], **CR))
+RB_BOUND = 'at most 2 loop iterations (pages) per call; values non-NULL; %s'
+for t, tn, d, r, suffix in [(1, 'int32', 1, 1, ''), (1, 'int32', 0, 0, '_nolevels'), (1, 'int32', 1, 0, '_defonly'),
+                            (2, 'int64', 1, 1, ''), (0, 'boolean', 0, 0, '_nolevels'), (6, 'byte_array', 1, 0, '_defonly')]:
+    JOBS.append(dict(name='c02_read_batch_%s%s' % (tn, suffix), entry='h_read_batch', enforce='carquet_column_read_batch',
+                     replace=['carquet_read_next_page'], loop_contracts=False, gi_unwind=3, wip=True, est_s=300, timeout=900, backend=['cadical', 'sat'],
+                     level='bounded', bound=RB_BOUND % ('def_levels %s, rep_levels %s' % ('non-NULL' if d else 'NULL', 'non-NULL' if r else 'NULL')),
+                     defines=['CQV_TYPE=%d' % t, 'CQV_RB_DEF=%d' % d, 'CQV_RB_REP=%d' % r], **CR))
+for t, tn in [(1, 'int32'), (2, 'int64'), (6, 'byte_array')]:
     JOBS.append(dict(name='c02_skip_%s' % tn, entry='h_skip', enforce='carquet_column_skip',
-                     replace=['carquet_column_read_batch'], min_loop_obligations=1, wip=True, est_s=60, timeout=300,
-                     note='never run: depends on the read_batch contract, which is not proved yet',
+                     replace=['carquet_column_read_batch'], loop_contracts=False, gi_unwind=4, wip=True, est_s=60, timeout=600,
+                     level='bounded', bound='at most 3 chunks of 1024 rows per call',
                      defines=['CQV_TYPE=%d' % t], **CR))
 
 # batch reader: null bitmap, projection index, same rows in every column; C19 clone with failing allocations
 BR = dict(CR)
+BR['cbmc_flags'] = ['--no-malloc-may-fail']   # cbmc 6 lets malloc fail by default; the C19 twin below keeps that
 BR['overlays'] = ['contracts/next_page.ovl', 'contracts/column_reader.ovl', 'contracts/batch_reader.ovl']
 BR['harness'] = 'harness/C02/batch.c'
 BR['trusted'] = CR['trusted'] + ['stubs/colreader_stubs.c: arena init/calloc/destroy as contracts',
-                                  'batch harness: row group already open, flat schema, column reader type/max_def equal to the schema (what carquet_reader_get_column sets)']
-JOBS.append(dict(name='c02_batch_next_int32', entry='h_batch_next', replace=['carquet_column_read_batch'],
+                                  'batch harness: carquet_reader_schema / num_row_groups / column_has_next / column_remaining restated from file_reader.c (one-line getters)', 'batch harness: row group already open, flat schema, column reader type/max_def equal to the schema (what carquet_reader_get_column sets)']
+JOBS.append(dict(name='c02_batch_next_int32', entry='h_batch_next', replace=['carquet_column_read_batch', 'carquet_read_next_page', 'load_next_page'],
                  functions=['carquet_batch_reader_next', 'carquet_row_batch_free'], unwind=4, min_loop_obligations=2,
                  level='bounded', bound='1..2 projected of 1..3 INT32 columns, row group open; rows unbounded',
-                 wip=True, est_s=120, timeout=600, defines=['CQV_TYPE=1'], c19=True, **BR))
+                 wip=True, est_s=120, timeout=600, defines=['CQV_TYPE=1'], **BR))
+BR19 = dict(BR)
+BR19['cbmc_flags'] = []
+BR19['prop'] = 'C19'
+JOBS.append(dict(name='c19_batch_next_int32', entry='h_batch_next', replace=['carquet_column_read_batch', 'carquet_read_next_page', 'load_next_page'],
+                 functions=['carquet_batch_reader_next', 'carquet_row_batch_free'], unwind=4, min_loop_obligations=2,
+                 level='bounded', bound='1..2 projected of 1..3 INT32 columns, row group open; rows unbounded; any subset of allocations fails',
+                 checks=['--bounds-check', '--pointer-check', '--div-by-zero-check', '--signed-overflow-check', '--undefined-shift-check', '--memory-leak-check'],
+                 wip=True, est_s=120, timeout=600, defines=['CQV_TYPE=1'], **BR19))
